@@ -362,7 +362,10 @@ def oracle(case):
                     continue
                 visit(ch, hdr_ex, io)  # arguments, bases, returns
             if n.body[0].lineno == n.lineno and not hdr_ex:
-                # one-line definition: the only line is shared with the enclosing scope
+                # one-line definition: the only line is shared with the enclosing scope; when the
+                # definition itself has to be covered, its line has to be a line goal
+                if not sibling and (not only_active or io) and n.lineno not in marked:
+                    must.add(n.lineno)
                 for b in n.body:
                     for ch in ast.walk(b):
                         if isinstance(ch, (ast.Lambda, ast.ListComp, ast.SetComp, ast.DictComp, ast.GeneratorExp)):
